@@ -10,10 +10,6 @@ package graph
 // return storage that existed before the call (so writing to it is a frame
 // violation for the caller).
 //@ assume pure Graph.NumNodes
-//@ assume func Graph.Out
-//@   results out
-//@   ensures true
-//@   assigns nothing
 
 //@ spec sortedInts(a []int) bool = forall i in 0..len(a)-1 :: a[i] <= a[i+1]
 
@@ -36,3 +32,5 @@ package graph
 //@ assume pure BiGraph.NumNodes
 //@ assume pure BiGraph.In
 //@ assume pure BiGraph.Out
+
+//@ assume pure Graph.Out
